@@ -62,6 +62,15 @@ def wMA : MType :=
 def wMB : MType :=
   { name := "B", src := { fields := ["ID", "Name", "Note"] }, dest := some { fields := ["ID", "Name", "Note"] } }
 
+/-- the `-opt` part of `new` (option functions, SetDefault) is a function of the type and the flags only: it reads
+    neither the long-lived state nor the directory; likewise the json tag VALUES (`tagOf` in the model).
+    The remaining parts of the `new` output are: constructor parameters (state: `hasNew`, reset), accessor interfaces
+    and JSON getter/setter lists (directory look-ups: C07) – all covered above. -/
+theorem C08_config_only (lk lk' : Leaks) (fl : NFlags) (files files' : Disk) (st st' : NSt) (t : NType) :
+    (newStep lk fl files st t).2.map (fun o => (o.opts, o.defaults)) =
+    (newStep lk' fl files' st' t).2.map (fun o => (o.opts, o.defaults)) := by
+  simp only [newStep, newCore, Option.map_some]
+
 /-! ## the loop -/
 
 /-- combined run = one process per type, in order, each seeing the files the earlier ones wrote
@@ -107,6 +116,22 @@ theorem C08_perm {σ τ ω : Type} (m : Machine σ τ ω) (hind : StateIndep m)
     (generate m disk ts).Perm (generate m disk ts') := by
   rw [C08_generate_solo m hind hst, C08_generate_solo m hind hst]
   exact hp.filterMap _
+
+/-- `map`, `enum`, `rest` at full generality: since every long-lived field is re-initialised by `MakeData`
+    (`C08_reset_sites`, `C08_leaks_fixed` over the regenerated facts), the generator is a machine whose step computes
+    an ARBITRARY function `plan` of the type (and the configuration) – embedded structs, `map:"…"` tags, mapper
+    functions and manual methods included – and keeps nothing; then the combined run is `plan` applied type by type,
+    and a permuted list permutes the outputs -/
+theorem C08_run_pure {τ ω : Type} (plan : τ → Option ω) (disk : Disk) (ts ts' : List τ) (hp : ts'.Perm ts)
+    (gfile : τ → ω → GFile) :
+    let m : Machine Unit τ ω := { init := (), step := fun _ _ t => ((), plan t), stale := fun _ => false, gfile := gfile }
+    generate m disk ts = ts.filterMap (fun t => (plan t).map (fun o => (t, o))) ∧
+    (generate m disk ts').Perm (generate m disk ts) := by
+  intro m
+  have hind : StateIndep m := fun _ _ _ => rfl
+  have h1 := C08_generate_solo m hind (fun _ => rfl) disk ts
+  refine ⟨h1, ?_⟩
+  exact C08_perm m hind (fun _ => rfl) disk ts' ts hp
 
 /-- `new -getset` (every output is fed back): two arrangements of the same types in each of which every type comes
     after the listed types it embeds give every type the same output – the code at HEAD, no repair needed.
